@@ -470,18 +470,9 @@ def exact_tie(ctx):
             want.append(('frac', fr, hx(f.read())))
         except Exception as e:
             want.append(err(e))
-        if w == 8 and len(data) >= 8 and abs(int.from_bytes(data[:8], 'big', signed=(name == 'i64'))) > 2 ** 53:
-            # KNOWN GAP (reported, minimal input `c02x.fixed.read i64 0 0020000000000001`): the real read is
-            # `int / denominator`, a float rounded to 53 bits; the model returns the exact raw/2^bits.  Observed, not compared.
-            want[-1] = ('gap', want[-1])
-    n_gap = 0
     for line, mo, w in zip(lines, ctx.driver.ask(lines), want):
         op = line.split()[0]
         ctx.case(('c02x', line), sample={'op': op, 'request': line[:120], 'impl': str(w)[:80]} if rng.random() < 0.02 else None)
-        if isinstance(w, tuple) and w[0] == 'gap':
-            ctx.count('c02x.fixed.read.known_gap_64bit_beyond_2^53')
-            n_gap += 1
-            continue
         if isinstance(w, tuple):           # equal as fractions: the model's pair is unreduced
             toks = mo.split()
             ok = len(toks) == 4 and toks[0] == 'ok' and toks[3] == w[2]
@@ -496,14 +487,7 @@ def exact_tie(ctx):
             ctx.count('%s.%s' % (op, w.split()[0]))
         if not ok:
             ctx.disagree('%s vs the real type' % op, line[:300], mo[:300], w[:300])
-    ctx.extra['c02exact_pairs'] = ctx.extra.get('c02exact_pairs', 0) + len(lines) - n_gap
-    ctx.extra['c02exact_known_gap'] = {
-        'what': 'c02x.fixed.read with a 64-bit base and |raw| > 2^53: the real FixedPoint.read is int / denominator (a float, '
-                'rounded to 53 bits), the model returns the exact raw/2^bits; observed but not compared',
-        'minimal_input': 'c02x.fixed.read i64 0 0020000000000001 -> model 9007199254740993/1, real 9007199254740992.0',
-        'inputs_left_out': ctx.extra.get('c02exact_known_gap', {}).get('inputs_left_out', 0) + n_gap}
-    if n_gap and not any('c02x.fixed.read' in n for n in ctx.notes):
-        ctx.notes.append('c02x.fixed.read: 64-bit bases beyond 2^53 are a known model gap (see c02exact_known_gap), not compared')
+    ctx.extra['c02exact_pairs'] = ctx.extra.get('c02exact_pairs', 0) + len(lines)
 
 
 def replay(ctx, rp):
